@@ -393,6 +393,8 @@ def inflate_raw(b: bytes, limit: int | None = None) -> bytes:
     out = d.decompress(b, limit + 1 if limit else 0)
     if limit and len(out) > limit:
         raise ValueError("too large")
+    if not d.eof:
+        raise ValueError("not a complete raw DEFLATE stream (RFC 1951): the final block is missing")     # strict, as a peer may be
     return out
 
 
